@@ -41,7 +41,7 @@ ImgSet(L) == {L.imgs[i] : i \in 1..Len(L.imgs)}
 (* the id the code generates: the first n >= number of images that is free; the property
    only needs a FRESH id, which is what the acceptor demands *)
 NextImgId(L) == CHOOSE n \in Len(L.imgs)..(2 * Len(L.imgs) + 1) : n \notin ImgSet(L) /\ \A m \in Len(L.imgs)..(n-1) : m \in ImgSet(L)
-FreshIds(L) == (0..(2 * Len(L.imgs) + 2)) \ ImgSet(L)
+FreshIds(L) == (0..(2 * Len(L.imgs) + 8)) \ ImgSet(L)
 Tagged(tab, id) ==
   LET cols == IF HasCol(tab, "img") THEN tab.cols ELSE Append(tab.cols, "img")
   IN Table(cols, [i \in 1..NRows(tab) |->
